@@ -66,3 +66,12 @@ CLAIMED["C01"] = {
     "note": "NOT covered: condition trees, missing-field-reads-as-null, field-reference right-hand sides, arithmetic expressions (z3 float theory: unknown at 600 s), assignment effects - all behind RustRuleEngine/Facts/expression.rs. Finite candidate domains. Trusted: rsym + library model (incl. the Rust float-literal grammar for parse::<f64>), z3.",
 }
 NA.pop("C01", None)
+CLAIMED["C02"] = {
+    "text": "Bounded symbolic model checking of the REAL forward engine gate (RustRuleEngine::execute_with_callback and execute_at_time, with the real KnowledgeBase, AgendaManager, ActivationGroupManager, Rule::is_active_at, Operator::evaluate, Facts): rule sets of R rules with ANY i32 salience and symbolic enabled/no-loop/lock-on-active/agenda-group/activation-group/date-window attributes, symbolic initial facts, symbolic focus and max_cycles; the firing sequence observed through the callback must equal a reference written from the property statement (descending salience, insertion order among equals, attribute gates), and the counters and final facts must equal the reference run.",
+    "note": "One execute per fresh engine after an optional set_agenda_focus; rules have the shape flag_i == true / one Set action; ActivateAgendaGroup actions, workflow scheduling, repeated execute calls and focus histories are outside the claim. Trusted: rsym + library model, z3, reference model. Bounded in R and max_cycles.",
+}
+CLAIMED["C03"] = {
+    "text": "Bounded symbolic model checking of the REAL engine loop: for every rule set of R rules of the stated shape (self-triggering and mutually triggering rules without no-loop included) and max_cycles symbolic in 0..C: execute returns Ok, every loop of the engine stays within its bound (bound obligations unsat), cycle_count <= max_cycles and equals 'passes until one fired nothing', rules_fired equals the callback count and the reference, the run stops before the bound only after a pass that fired nothing, and then no eligible rule has a true condition on the final facts.",
+    "note": "max_cycles up to C (not 64), timeout disabled; same rule shape and exclusions as C02. Trusted: rsym + library model, z3, reference model.",
+}
+NA.pop("C02", None); NA.pop("C03", None)
